@@ -24,7 +24,7 @@ def work_chunk(chunk):
 
 def run_all(cases, procs=16, chunk=8):
     """Run cases in a process pool; a chunk that does not come back in time is reported as driver errors."""
-    ctx = mp.get_context("fork")
+    ctx = mp.get_context("spawn")
     outs = [None] * len(cases)
     pool = ctx.Pool(procs, maxtasksperchild=25)
     try:
